@@ -32,9 +32,15 @@ type conflictBuilder struct {
 	g     *qgen // benign generator for arguments and leaf selections
 	defs  []string
 	nfrag int
+	ns    string // feature namespace when the builder serves another family ("" = conflict)
 }
 
-func (b *conflictBuilder) feat(f string) { b.g.feat(f) }
+func (b *conflictBuilder) feat(f string) {
+	if b.ns != "" && strings.HasPrefix(f, "conflict:") {
+		f = b.ns + ":" + strings.TrimPrefix(f, "conflict:")
+	}
+	b.g.feat(f)
+}
 
 // usableFields lists the fields of typ the walk may use: no federation
 // plumbing, no resolvers that fail on purpose.
